@@ -40,6 +40,7 @@ func c17Use(c *Ctx) {
 	}
 	parCtx := c.constTerm(pkgRoot, "PushedAuthorizeRequestContext")
 	okDel, okCli, okAuth, okFrozen, okExp, okEnf := true, true, true, true, true, true
+	whyCli := "isPAR success without the client comparison"
 	var wDel, wCli, wAuth, wFrozen, wExp, wEnf *Path
 	whyAuth, whyFrozen := "", ""
 	nPAR, nNon := 0, 0
@@ -59,6 +60,7 @@ func c17Use(c *Ctx) {
 			}
 			// client binding
 			found := false
+			staleRead := false
 			for _, f := range p.Facts {
 				if f.Atom.Kind != "EQ" || !f.Pol {
 					continue
@@ -75,6 +77,14 @@ func c17Use(c *Ctx) {
 						}
 						for _, m := range p.Calls(".Merge") {
 							if m.Recv != nil && m.Recv.Key() == x.Key() && m.Arg(0).Key() == stored.Key() {
+								// the request's form is the incoming form (one map): Merge copies the
+								// pushed parameters, client_id included, into it. The caller's client_id
+								// must have been read before that, or the comparison is of the pushed
+								// client with itself.
+								if a.Clock > m.Idx {
+									staleRead = true
+									continue
+								}
 								found = true
 							}
 						}
@@ -83,6 +93,9 @@ func c17Use(c *Ctx) {
 			}
 			if !found {
 				okCli, wCli = false, p
+				if staleRead {
+					whyCli = "the client_id compared with the pushed request's client is read from the form after Merge copied the pushed parameters (client_id included) into that same form"
+				}
 			}
 			// authoritative fields
 			want := map[string]string{"RedirectURI": ".GetRedirectURI", "ResponseTypes": ".GetResponseTypes", "State": ".GetState", "ResponseMode": ".GetResponseMode"}
@@ -173,7 +186,7 @@ func c17Use(c *Ctx) {
 		return
 	}
 	c.Check(okDel, "C17.R1", role, fn, "one-time", "continuing from a pushed request requires DeletePARSession of the same request_uri to have succeeded", "isPAR success without a successful delete of the looked-up uri", wDel)
-	c.Check(okCli, "C17.R1", role, fn, "client-bound", "continuing requires client_id(form) == client id of the pushed request", "isPAR success without the client comparison", wCli)
+	c.Check(okCli, "C17.R1", role, fn, "client-bound", "continuing requires client_id(form, as sent by the caller) == client id of the pushed request", whyCli, wCli)
 	c.Check(okAuth, "C17.R2", role, fn, "pushed-values-installed", "redirect URI, response types, state and response mode are taken from the pushed request and Merge(pushed) runs", whyAuth, wAuth)
 	c.Check(okFrozen, "C17.R2", role, fn, "query-cannot-override", "after the pushed values were installed nothing writes to the request before it is returned", whyFrozen, wFrozen)
 	if parCtx == nil {
